@@ -563,7 +563,7 @@ def _gen_bytelists(o, rng, tier):
 def _gen_symbols(o, rng, tier):
     letters = 'abcdefghijklmnopqrstuvwxyzABCXYZ'
     names = ['a', 'z', '_', '_a', 'a_', 'a1', '1', '12', '1a', 'a:b', 'a::b', 'a:b:c', 'my_symbol', 'a:', 'a::', '_:', 'a1:', 'a:b:',
-             'é', 'añb', 'Z9']
+             'é', 'añb', 'Z9', 'café', 'naïve_1', 'ß', 'αβγ', '日本', 'x٣y', 'é:', 'ñ:b']
     for _ in range(400 if tier == 'quick' else 3000):
         n = rng.randrange(1, 13)
         r = rng.random()
